@@ -255,7 +255,7 @@ def strip_generics(s):
     return "".join(out)
 
 
-def find_fn(path, name, self_ty=None, trait=None, root=None, nth=None, include_tests=False):
+def find_fn(path, name, self_ty=None, trait=None, root=None, nth=None, include_tests=False, inherent=False):
     """Find one function by name and (optionally) the type / trait of the impl it
     lives in.  `self_ty` and `trait` are compared after dropping generics and
     whitespace; `trait` may be given by its last path segment."""
@@ -268,6 +268,8 @@ def find_fn(path, name, self_ty=None, trait=None, root=None, nth=None, include_t
             st = strip_generics(ow.get("self_ty") or "")
             if st != self_ty and st.split("::")[-1] != self_ty:
                 continue
+        if inherent and ow.get("trait"):
+            continue
         if trait is not None:
             tr = ow.get("trait") or ""
             full = tr.replace(" ", "")
